@@ -133,6 +133,13 @@ class _Return(Exception):
         self.value = value
 
 
+class _HalfReturn(Exception):
+    """one branch of a data-dependent `if` returned `value`; the other branch continues with the
+    statements that follow, in `env` (first: the returning branch is the `if` body)"""
+    def __init__(self, c, value, first, env):
+        self.c, self.value, self.first, self.env = c, value, first, env
+
+
 class Events:
     """side information recorded during interpretation (used by typing rules)"""
     def __init__(self):
@@ -202,6 +209,8 @@ class Interp:
         except _Return as r:
             self.ev.locals[func.qualname] = env
             return r.value
+        except _HalfReturn:
+            raise AnalysisError("%s: return in one branch of a data-dependent if, the other path falls off the end or leaves a loop" % func.qualname)
         finally:
             if prim:
                 self._in_primitive -= 1
@@ -246,8 +255,16 @@ class Interp:
 
     # ------------------------------------------------------------------ statements
     def exec_block(self, stmts, env, func, depth):
-        for st in stmts:
-            self.exec_stmt(st, env, func, depth)
+        for i, st in enumerate(stmts):
+            try:
+                self.exec_stmt(st, env, func, depth)
+            except _HalfReturn as h:
+                # `if c: return X` followed by more statements  ==  `if c: return X  else: <rest>`
+                try:
+                    self.exec_block(stmts[i + 1:], h.env, func, depth)
+                except _Return as r:
+                    raise _Return(self.merge(h.c, h.value, r.value) if h.first else self.merge(h.c, r.value, h.value))
+                raise _HalfReturn(h.c, h.value, h.first, h.env)
 
     def exec_stmt(self, st, env, func, depth):
         if isinstance(st, ast.Expr):
@@ -309,7 +326,9 @@ class Interp:
             if r1 is not None or r2 is not None:
                 if r1 is not None and r2 is not None:
                     raise _Return(self.merge(c, r1.value, r2.value))
-                raise AnalysisError("%s:%d return in one branch of a data-dependent if" % (func.qualname, st.lineno))
+                if r1 is not None:
+                    raise _HalfReturn(c, r1.value, True, env2)
+                raise _HalfReturn(c, r2.value, False, env1)
             for k in set(env1) | set(env2):
                 if k in env1 and k in env2:
                     if env1[k] is env2[k]:
@@ -319,7 +338,17 @@ class Interp:
                 else:
                     raise AnalysisError("%s:%d variable %s defined in one branch only" % (func.qualname, st.lineno, k))
             return
+        if isinstance(st, ast.For) and not getattr(self, "_in_for_guard", False):
+            self._in_for_guard = True
+            try:
+                try:
+                    return self.exec_stmt(st, env, func, depth)
+                finally:
+                    self._in_for_guard = False
+            except _HalfReturn:
+                raise AnalysisError("%s:%d data-dependent return inside a loop" % (func.qualname, st.lineno))
         if isinstance(st, ast.For):
+            self._in_for_guard = False
             it = self.eval(st.iter, env, func, depth)
             if isinstance(it, RangeLen):
                 if not isinstance(st.target, ast.Name):
@@ -999,6 +1028,13 @@ class Interp:
             raise AnalysisError("%s:%d call into unknown module %s" % (func.qualname, ln, name))
         if base in self.np_hooks:
             return self.np_hooks[base](args, kwargs)
+        if base in ("all", "any") and len(args) == 1 and not kwargs and hasattr(d, "unknown_cond"):
+            # reduction of a condition over an array of which the analysed value is one entry:
+            # decided only when this entry forces it, otherwise an unknown condition (both branches)
+            t = self.truth(args[0])
+            if (base == "all" and t is False) or (base == "any" and t is True):
+                return t
+            return d.unknown_cond()
         if base in NP_UNARY:
             return self.unary(base, args[0], ln)
         if base in ("minimum", "maximum"):
@@ -1015,6 +1051,17 @@ class Interp:
                 return b
             self.ev.where_conditions.append((ln, c))
             return self.merge(c, a, b)
+        if base in ("gradient", "diff") and len(args) == 1 and isinstance(args[0], SArr) and self.stn is not None:
+            # neighbour differences of a piecewise array (interior value shifted; one-sided at the ends)
+            a = args[0]
+            if len(a.segs) != 1:
+                raise AnalysisError("%s:%d np.%s of a piecewise array" % (func.qualname, ln, base))
+            v = a.segs[0][2]
+            up, dn = self.stn.shift(v, 1), self.stn.shift(v, -1)
+            L = a.length
+            if base == "diff":
+                return SArr(L - 1, [(0, L - 1, d.sub(up, v))])
+            return SArr(L, [(0, 1, d.sub(up, v)), (1, L - 1, d.div(d.sub(up, dn), d.const(2))), (L - 1, L, d.sub(v, dn))])
         if base == "zeros" and args and isinstance(args[0], NLin) and self.stn is not None:
             return SArr(args[0], [(0, args[0], self.dom.const(0))])
         if base == "arange" and len(args) == 1 and isinstance(args[0], NLin):
